@@ -1091,7 +1091,7 @@ static int parse_single_cert(psPool_t *pool, const unsigned char **pp,
 #  endif
 
     /* As the next three values are optional, we can do a specific test here */
-    if (*p != (ASN_SEQUENCE | ASN_CONSTRUCTED))
+    if (p < end && *p != (ASN_SEQUENCE | ASN_CONSTRUCTED))
     {
         if ((rc = getImplicitBitString(pool, &p, (uint32) (end - p),
                         IMPLICIT_ISSUER_ID, &cert->uniqueIssuerId,
